@@ -374,6 +374,111 @@ var rulePublishOnce = &Rule{
 							}
 						}
 					}
+					// the pending object handed to a helper that publishes / extends it and hands back what is still pending
+					// (commentInfo, lastLine = l.collectComment(commentInfo, lastLine, …)): the rule moves into the helper —
+					// on no path from a publication to a return is the published object the one handed back
+					for b := range body {
+						for _, i2 := range b.Instrs {
+							call, ok := i2.(*ssa.Call)
+							if !ok {
+								continue
+							}
+							g := call.Call.StaticCallee()
+							if g == nil || g.Blocks == nil || !c.IsModFn(g) {
+								continue
+							}
+							pj := -1
+							for j, a := range call.Call.Args {
+								if same[a] && j < len(g.Params) {
+									pj = j
+								}
+							}
+							if pj < 0 || call.Referrers() == nil {
+								continue
+							}
+							ri := -1
+							for _, r := range *call.Referrers() {
+								if ex, ok := r.(*ssa.Extract); ok && same[ex] {
+									ri = ex.Index
+								}
+							}
+							if same[call] {
+								ri = 0
+							}
+							if ri < 0 {
+								continue
+							}
+							appendsG := false
+							var pubs []*ssa.MapUpdate
+							for _, gb := range g.Blocks {
+								for _, gi := range gb.Instrs {
+									switch x := gi.(type) {
+									case *ssa.Store:
+										if fa, ok := x.Addr.(*ssa.FieldAddr); ok && appendCall(x.Val) != nil && types.Identical(fa.X.Type(), phi.Type()) {
+											appendsG = true
+										}
+									case *ssa.MapUpdate:
+										if types.Identical(x.Value.Type(), phi.Type()) {
+											pubs = append(pubs, x)
+										}
+									}
+								}
+							}
+							if !appendsG {
+								continue
+							}
+							for _, mu := range pubs {
+								n++
+								cnt++
+								key := fmt.Sprintf("PUB:%s#%d", fnKey(g), cnt)
+								reachB := map[*ssa.BasicBlock]bool{mu.Block(): true}
+								stack := []*ssa.BasicBlock{mu.Block()}
+								for len(stack) > 0 {
+									bb := stack[len(stack)-1]
+									stack = stack[:len(stack)-1]
+									for _, sc := range bb.Succs {
+										if !reachB[sc] {
+											reachB[sc] = true
+											stack = append(stack, sc)
+										}
+									}
+								}
+								var sameObj func(e ssa.Value, d int) bool
+								sameObj = func(e ssa.Value, d int) bool {
+									if d > 6 {
+										return false
+									}
+									if e == mu.Value {
+										return true
+									}
+									if p2, ok := e.(*ssa.Phi); ok && reachB[p2.Block()] && p2.Block() != mu.Block() {
+										for j, e2 := range p2.Edges {
+											if reachB[p2.Block().Preds[j]] && sameObj(e2, d+1) {
+												return true
+											}
+										}
+									}
+									return false
+								}
+								bad := false
+								for rb := range reachB {
+									ret, ok := rb.Instrs[len(rb.Instrs)-1].(*ssa.Return)
+									if !ok || ri >= len(ret.Results) {
+										continue
+									}
+									if sameObj(ret.Results[ri], 0) {
+										bad = true
+									}
+								}
+								if bad {
+									obs = append(obs, Ob{Key: key, Site: c.Pos(mu.Pos()), Verdict: VIOLATION,
+										Note: "the object stored into the map here is handed back to the caller's loop as the pending one, where it is extended / stored again: two keys share one object (text of the next item is attached to this entry)"})
+								} else {
+									obs = append(obs, Ob{Key: key, Site: c.Pos(mu.Pos()), Verdict: OK, Note: "after the publication the helper hands back nil or a fresh object"})
+								}
+							}
+						}
+					}
 					if !appended || len(stores) == 0 {
 						continue
 					}
